@@ -57,7 +57,17 @@ def generate(ctx):
                 continue
             cfg = league.league_cfg(rng, gen, scale=rng.choice([1.0, 1.0, 1e-2, 1e2]), gammas=["default", "default", "dep"])
             yield "league", dict(model=m, cfg=cfg, players=rng.choice([12, 40, 40]), games=G, mode=mode,
-                                 seed=rng.randrange(2 ** 31), percall=True)
+                                 seed=rng.randrange(2 ** 31), percall=True, anchors=rng.choice([0, 3, 4]))
+    # anchor leagues: a small pool around a few (nearly) certain reference players in a model without dynamics (tau = 0, the
+    # usual way to pin the scale of a pool): their mean updates are below one ulp of mu, game after game
+    for rep in range(2 if ctx.tier == "quick" else 40):
+        for ci, m in enumerate(MODEL_NAMES):
+            if (ci + 5 * rep) % ctx.nshards != ctx.shard:
+                continue
+            cfg = league.league_cfg(rng, gen, scale=rng.choice([1.0, 1.0, 1e-2, 1e2]), gammas=["default"])
+            cfg["tau"] = 0.0
+            yield "league", dict(model=m, cfg=cfg, players=rng.choice([6, 8]), games=G // 3, mode=rng.choice(["skill", "random"]),
+                                 seed=rng.randrange(2 ** 31), percall=False, anchors=4)
 
 
 def _exact(got, want):
